@@ -1198,8 +1198,8 @@ class IkeSa(object):
             # Recover from INVALID_KE_PAYLOAD
             invalid_ke = response.get_notifies(PayloadNOTIFY.Type.INVALID_KE_PAYLOAD, True)
             if invalid_ke:
-                self.new_ike_sa.dh, new_request = self.handle_invalid_ke(invalid_ke)
-                return new_request
+                self.new_ike_sa.dh, self.request = self.handle_invalid_ke(invalid_ke)
+                return self.request
             # If we are asked to wait, wait for a random amount of time before retrying to rekey the IKE_SA
             if response.get_notifies(PayloadNOTIFY.Type.TEMPORARY_FAILURE, True):
                 self.log_debug('Push back IKE_SA rekey as we received TEMPORARY_FAILURE')
@@ -1226,8 +1226,8 @@ class IkeSa(object):
             # Recover from INVALID_KE_PAYLOAD
             invalid_ke = response.get_notifies(PayloadNOTIFY.Type.INVALID_KE_PAYLOAD, True)
             if invalid_ke:
-                self.dh, new_request = self.handle_invalid_ke(invalid_ke)
-                return new_request
+                self.dh, self.request = self.handle_invalid_ke(invalid_ke)
+                return self.request
             prev_state = self.state
             self.state = IkeSa.State.ESTABLISHED
             try:
